@@ -76,8 +76,8 @@ def collect(handle, timeout):
     handle["log"].close()
     with open(os.path.join(handle["tmp"], "suite.log")) as f:
         tail = f.read()[-3000:]
-    summary = [l for l in tail.splitlines() if " passed" in l or " failed" in l
-               or " error" in l]
+    summary = [line for line in tail.splitlines() if " passed" in line
+               or " failed" in line or " error" in line]
     dumps = []
     for name in sorted(os.listdir(handle["tdir"])):
         with open(os.path.join(handle["tdir"], name)) as f:
